@@ -181,7 +181,11 @@ func (*c03) Class(ci, oi any) string {
 	if i < len(o.Steps) && c03Hit(op, o.Steps[i], o.Reqs[i]) {
 		hit = "hit"
 	}
-	// how many operations of the history carry a fault, and whether a revision was deployed when the last one started
+	// histories with several faulted operations: marked, with whether a revision was deployed when the last one started
+	label := fmt.Sprintf("%s/%s/%s/%s", op.Kind, f, fl, hit)
+	if c03FaultCount(h) < 2 {
+		return label
+	}
 	dep := "nodep"
 	if i > 0 && i-1 < len(o.Steps) {
 		for _, r := range o.Steps[i-1].Ledger {
@@ -190,10 +194,7 @@ func (*c03) Class(ci, oi any) string {
 			}
 		}
 	}
-	if i == 0 {
-		dep = "empty"
-	}
-	return fmt.Sprintf("%s/%s/%s/%s/f%d/%s", op.Kind, f, fl, hit, c03FaultCount(h), dep)
+	return label + "/multi-" + dep
 }
 
 func (*c03) NonTrivial(ci, oi any) bool {
